@@ -21,6 +21,7 @@ thread_local! {
     static COUNT: Cell<u64> = const { Cell::new(0) };
     static ARMED: Cell<Option<u64>> = const { Cell::new(None) };
     static LAST_SITE: Cell<&'static str> = const { Cell::new("") };
+    static LAST_FILE: std::cell::RefCell<Option<std::path::PathBuf>> = const { std::cell::RefCell::new(None) };
 }
 
 static PROCESS_COUNT: AtomicU64 = AtomicU64::new(0);
@@ -40,6 +41,18 @@ pub fn count() -> u64 {
 /// Site of the last crash point reached by this thread.
 pub fn last_site() -> &'static str {
     LAST_SITE.with(|s| s.get())
+}
+
+/// File about to be (over)written at the last [crash_point_write] reached by this thread.
+pub fn last_file() -> Option<std::path::PathBuf> {
+    LAST_FILE.with(|f| f.borrow().clone())
+}
+
+/// Marks a point right before `path` is created/truncated and written in one go (`std::fs::write`).
+/// A harness that kills here may also leave `path` behind empty (killed between open and write).
+pub fn crash_point_write(site: &'static str, path: &std::path::Path) {
+    LAST_FILE.with(|f| *f.borrow_mut() = Some(path.to_path_buf()));
+    crash_point(site);
 }
 
 /// Marks a point right before a durable effect.
